@@ -833,7 +833,7 @@ package sizes
 //@   call 0 tableContents.Emit as em
 //@   call 0 Len as bufLen
 //@   call 0 generateHeader as gh
-//@   call 0 Buffer).String as body
+//@   call 1 Buffer).String as body
 //@   call 0 Footnotes).String as fn
 //@   call 0 tableContents.Emit assert same(arg_0.threshold, threshold) && arg_0.nameStyle == nameStyle
 //@   call 0 tableContents.Emit assert arg_0.indent == -1
